@@ -1,4 +1,9 @@
+mod c11;
+mod c14;
+
 fn main() {
-    eprintln!("no sub-commands yet");
-    std::process::exit(2);
+    vf_kit::dispatch! {
+        "c11" => c11::C11::default(),
+        "c14" => c14::C14,
+    }
 }
